@@ -203,6 +203,11 @@ def main(argv):
         print("unknown property %s" % prop, file=sys.stderr)
         return 2
     t0 = time.time()
+    for stream in (sys.stdout, sys.stderr):
+        try:
+            stream.reconfigure(errors="backslashreplace")
+        except Exception:
+            pass
     try:
         env.oneliner()
         eng = engine(prop)
